@@ -419,30 +419,51 @@ theorem parLoop_disjoint (plen : Nat → Nat) (base items threads : Nat) (ht : 1
   · rw [hxc, hyc, mi.2.1, mj.2.1]; omega
 
 
-theorem splitLoop_aligned (len : Nat) (hl : len % 64 = 0) : ∀ (n : Nat) (w : Win), w.start % 64 = 0 → n * len ≤ w.len →
-    splitLoop n w len = .ok ((List.range n).map (fun k => (⟨w.start + k * len, len⟩ : Win)), ⟨w.start + n * len, w.len - n * len⟩) := by
+/-- `split_at_mut` repeated `n` times from any window: region `j` starts at the first 64-byte boundary of the
+window plus `j` rounded-up sizes, whenever the repaired size check holds. -/
+theorem splitLoop_general (len : Nat) : ∀ (n : Nat) (w : Win),
+    (n = 0 ∨ w.alignOffset + (n - 1) * nextMult64 len + len ≤ w.len) →
+    ∃ rest, splitLoop n w len =
+      .ok ((List.range n).map (fun j => (⟨w.start + w.alignOffset + j * nextMult64 len, len⟩ : Win)), rest) := by
   intro n
   induction n with
-  | zero => intro w _ _; simp [splitLoop]
+  | zero => intro w _; exact ⟨w, by simp [splitLoop]⟩
   | succ k ih =>
-    intro w hw hn
-    have hoff : w.alignOffset = 0 := by simp [Win.alignOffset, hw]
-    rw [Nat.succ_mul] at hn
-    have hlt : ¬ (w.len < len) := by omega
+    intro w h
+    have h' : w.alignOffset + k * nextMult64 len + len ≤ w.len := by
+      rcases h with h | h
+      · omega
+      · simpa using h
+    have hkR : 0 ≤ k * nextMult64 len := Nat.zero_le _
+    have hlt : ¬ (w.len - w.alignOffset < len) := by omega
     unfold splitLoop
-    simp only [takeAligned, hoff, hlt, if_false, Nat.add_zero, Nat.sub_zero]
-    have := ih ⟨w.start + len, w.len - len⟩ (by simp; omega) (by simp; omega)
-    rw [this]
-    simp only [Outcome.ok.injEq, Prod.mk.injEq]
-    constructor
-    · rw [List.range_succ_eq_map]
-      simp only [List.map_cons, List.map_map, Nat.zero_mul, Nat.add_zero, List.cons.injEq, true_and]
-      apply List.map_congr_left
-      intro a _
-      simp only [Function.comp, Nat.succ_mul, Win.mk.injEq, and_true]
-      omega
-    · simp only [Nat.succ_mul, Win.mk.injEq]
-      omega
-
+    simp only [takeAligned, hlt, if_false]
+    set w' : Win := ⟨w.start + w.alignOffset + len, w.len - w.alignOffset - len⟩ with hw'
+    have hA : (w.start + w.alignOffset) % 64 = 0 := by unfold Win.alignOffset; omega
+    have hoff' : w'.alignOffset = (64 - len % 64) % 64 := by
+      simp only [hw', Win.alignOffset]; omega
+    have hstart' : w'.start + w'.alignOffset = w.start + w.alignOffset + nextMult64 len := by
+      rw [hoff']; simp only [hw', nextMult64]; omega
+    have hreq : k = 0 ∨ w'.alignOffset + (k - 1) * nextMult64 len + len ≤ w'.len := by
+      rcases Nat.eq_zero_or_pos k with hk | hk
+      · exact Or.inl hk
+      · right
+        rw [hoff']
+        simp only [hw']
+        have e : k * nextMult64 len = (k - 1) * nextMult64 len + nextMult64 len := by
+          have : k = (k - 1) + 1 := by omega
+          conv => lhs; rw [this, Nat.succ_mul]
+        have hR : nextMult64 len = len + (64 - len % 64) % 64 := rfl
+        omega
+    obtain ⟨rest, hrest⟩ := ih w' hreq
+    rw [hrest]
+    refine ⟨rest, ?_⟩
+    simp only [Outcome.ok.injEq, Prod.mk.injEq, and_true]
+    rw [List.range_succ_eq_map]
+    simp only [List.map_cons, List.map_map, Nat.zero_mul, Nat.add_zero, List.cons.injEq, true_and]
+    apply List.map_congr_left
+    intro a _
+    simp only [Function.comp, Win.mk.injEq, and_true]
+    rw [hstart', Nat.succ_mul]; omega
 
 end Threads
